@@ -403,7 +403,7 @@ MSPECS = ["", ".3f", ".2e", "g", ".4g", "n", "10.2f", "+.1f", "e", ".0f"]
 def _quantity_strategy(nit):
     names = ["meter", "second", "kilogram", "kelvin", "newton", "percent", "degree", "inch", "millisecond", "kilometer", "hertz", "joule", "radian"]
     if nit == "float":
-        mags = st.one_of(st.integers(-10 ** 6, 10 ** 6), st.floats(-1e12, 1e12, allow_nan=False, allow_subnormal=False), st.sampled_from([1.5e-7, 2.5e9, 0.1, 1e-3, 123456.789, 1.5e-9, 2e19, 3.25e-18, 6.02e23, 1e-16, 4.5e15]))
+        mags = st.one_of(st.integers(-10 ** 6, 10 ** 6), st.floats(-1e12, 1e12, allow_nan=False, allow_subnormal=False), st.sampled_from([1.5e-7, 2.5e9, 0.1, 1e-3, 123456.789, 1.5e-9, 2e19, 3.25e-18, 6.02e23, 1e-16, 4.5e15, 1e33, 2.5e40, 1e300, 1e-40, 3e-33, 1e-300]))
     elif nit == "Decimal":
         mags = st.one_of(st.integers(-10 ** 6, 10 ** 6), st.decimals(-10 ** 6, 10 ** 6, places=4, allow_nan=False))
     else:
@@ -469,6 +469,8 @@ def case_quantity(case, col=None):
     if case["compact"] and units and isinstance(m, (int, float)) and m:
         s1, a = attempt(format, q, "#" + mspec + case["spec"])
         s2, b = attempt(lambda: format(q.to_compact(), mspec + case["spec"]))
+        if s1 == "err":
+            raise Violation(f"format_compact_raised:{exc_class(a)}", f"format(Q({m!r},{units}), '#{mspec + case['spec']}') raised {type(a).__name__}: {a}")
         if s1 != s2 or (s1 == "ok" and a != b):
             raise Violation("compact_modifier_differs", f"format(q,'#{mspec + case['spec']}') = {a!r}; format(q.to_compact(), ...) = {b!r} for Q({m!r},{units})")
 
@@ -543,7 +545,36 @@ def case_in_context(case, col=None):
     check_unit_format(ureg, R, units, case["spec"], "float", roundtrip=False)
 
 
+def case_late_unit(case, col=None):
+    """a unit defined after its spellings were asked for (the usual 'if name not in ureg: ureg.define(...)') formats like any other"""
+    ureg = env.fresh("float")
+    if col is not None:
+        col.case(("late", str(case)), True, sample=case, cls="late_definition")
+    for probe in case["probes"]:
+        attempt(lambda: probe in ureg)
+        attempt(ureg.parse_units, probe)
+    ureg.define("smoot = 1.7018 * meter = smt")
+    q = ureg.Quantity(case["m"], "smoot")
+    want = {"": f"{case['m']} smoot", "~": f"{case['m']} smt", "#~": None, "~P": f"{case['m']} smt", "#": None}
+    for spec, w in want.items():
+        s, t = attempt(format, q, spec)
+        if s == "err":
+            raise Violation(f"format_raised_for_late_unit:{spec}:{exc_class(t)}", f"after probing {case['probes']} and define('smoot = ...'), format(Q({case['m']},'smoot'), {spec!r}) raised {type(t).__name__}: {t}")
+        if w is not None and t != w:
+            raise Violation(f"format_wrong_for_late_unit:{spec}", f"{t!r} vs {w!r}")
+        if w is None:
+            c = q.to_compact()
+            if t != format(c, spec.replace("#", "")):
+                raise Violation(f"format_wrong_for_late_unit:{spec}", f"{t!r} vs compacted {format(c, spec.replace('#', ''))!r}")
+            s, back = attempt(ureg.parse_expression, t)
+            if s == "err" or abs(back.to("smoot").magnitude - case["m"]) > 1e-9 * case["m"]:
+                raise Violation(f"format_roundtrip_for_late_unit:{spec}", f"{t!r} -> {back!r}")
+
+
 def run_settings(task, tier, seed, col):
+    for probes in ([], ["smoot"], ["kilosmoot", "smoots"], ["ksmt", "smt", "millismoot", "Msmt"]):
+        for m in (1500.0, 2.5e-4, 3.0e6):
+            col.run_case(lambda c: case_late_unit(c, col), {"probes": probes, "m": m})
     for i in range(len(CTX_REDEFS)):
         for units in ({"UNIT": 1, "inch": -2}, {"kiloUNIT": 1}, {"UNIT": -1, "meter": 1}, {"milliUNIT": 2, "second": -1}):
             for spec in ("~", "~P", "~C", "~H", "~L", "~Lx", "P", "D"):
@@ -562,4 +593,6 @@ def run_task(task, tier, seed, col):
 def replay(sub, case):
     if sub == "settings" and "i" in case:
         return case_in_context(case)
+    if sub == "settings" and "probes" in case:
+        return case_late_unit(case)
     return {"units": case_unit, "compound": case_compound, "quantity": case_quantity, "settings": case_settings}[sub](case)
